@@ -10,7 +10,8 @@
 //
 // Progress is appended to the -out ndjson file and flushed record by record ({"ev":"start"} before, {"ev":"end"} after
 // every analysis) so that a fatal error / a panic in a worker goroutine / a watchdog timeout, which kill the process,
-// still leave behind which analysis was running.  Exit code 3 = watchdog timeout.
+// still leave behind which analysis was running.  Exit code 3 = watchdog timeout (measured in CPU
+// seconds of the process, so that machine load cannot cause it; all goroutine stacks are recorded).
 package main
 
 import (
@@ -19,7 +20,9 @@ import (
 	"io"
 	"os"
 	"path/filepath"
+	"runtime"
 	"runtime/debug"
+	"syscall"
 	"strings"
 	"sync"
 	"time"
@@ -44,6 +47,7 @@ type rec struct {
 	Err   string `json:"err"`
 	Panic string `json:"panic"`
 	Ms    int64  `json:"ms"`
+	Cpu   int64  `json:"cpu"` // CPU milliseconds (user+sys) of the process during the analysis
 	N     int    `json:"n"` // size of the result (flows, traces, functions)
 }
 
@@ -60,6 +64,15 @@ func put(r rec) {
 	outF.Sync()
 }
 
+// cpuTime is the CPU time (user + system) consumed by this process so far.
+func cpuTime() time.Duration {
+	var ru syscall.Rusage
+	if err := syscall.Getrusage(syscall.RUSAGE_SELF, &ru); err != nil {
+		return 0
+	}
+	return time.Duration(ru.Utime.Nano() + ru.Stime.Nano())
+}
+
 func loadCfg(dir, name string) (*config.Config, error) {
 	if name == "" {
 		return config.NewDefault(), nil
@@ -73,7 +86,8 @@ func main() {
 	cfgdir := flag.String("cfgdir", "", "directory of the <name>.yaml config files (default: -dir)")
 	out := flag.String("out", "crash.ndjson", "ndjson progress/result file")
 	list := flag.String("analyses", "", "comma separated: taint:<cfg>,backtrace:<cfg>,reach,reachptr,defer,maypanic")
-	tmo := flag.Int("timeout", 120, "watchdog per analysis (seconds)")
+	tmo := flag.Int("timeout", 120, "watchdog per analysis: CPU seconds of this process (user+sys), robust against machine load")
+	wall := flag.Int("walltimeout", 1800, "watchdog per analysis: wall-clock seconds (an analysis blocked without using CPU)")
 	loglevel := flag.Int("loglevel", 1, "log level forced on every configuration (the log output is discarded)")
 	flag.Parse()
 	if *cfgdir == "" {
@@ -100,7 +114,7 @@ func main() {
 		}()
 		prog, pkgs, err = hutil.Load(*dir, true, strings.Split(*pattern, ",")...)
 	}()
-	lr := rec{Ev: "load", Ms: time.Since(start).Milliseconds()}
+	lr := rec{Ev: "load", Name: *pattern, Ms: time.Since(start).Milliseconds()}
 	if err != nil {
 		lr.Err = err.Error()
 		put(lr)
@@ -113,15 +127,25 @@ func main() {
 		sync.Mutex
 		name  string
 		since time.Time
+		cpu0  time.Duration
 	}
 	go func() { // watchdog
 		for {
 			time.Sleep(500 * time.Millisecond)
 			cur.Lock()
-			n, s := cur.name, cur.since
+			n, s, c0 := cur.name, cur.since, cur.cpu0
 			cur.Unlock()
-			if n != "" && time.Since(s) > time.Duration(*tmo)*time.Second {
-				put(rec{Ev: "timeout", Name: n, Ms: time.Since(s).Milliseconds()})
+			if n == "" {
+				continue
+			}
+			used := cpuTime() - c0
+			if used > time.Duration(*tmo)*time.Second || time.Since(s) > time.Duration(*wall)*time.Second {
+				buf := make([]byte, 1<<20)
+				buf = buf[:runtime.Stack(buf, true)]
+				if len(buf) > 60000 {
+					buf = buf[:60000]
+				}
+				put(rec{Ev: "timeout", Name: n, Ms: time.Since(s).Milliseconds(), N: int(used.Milliseconds()), Panic: string(buf)})
 				os.Exit(3)
 			}
 		}
@@ -139,7 +163,7 @@ func main() {
 		}
 		kind, cfgName, _ := strings.Cut(a, ":")
 		cur.Lock()
-		cur.name, cur.since = a, time.Now()
+		cur.name, cur.since, cur.cpu0 = a, time.Now(), cpuTime()
 		cur.Unlock()
 		put(rec{Ev: "start", Name: a})
 		r := rec{Ev: "end", Name: a}
@@ -203,6 +227,7 @@ func main() {
 		}()
 		r.Ms = time.Since(t0).Milliseconds()
 		cur.Lock()
+		r.Cpu = (cpuTime() - cur.cpu0).Milliseconds()
 		cur.name = ""
 		cur.Unlock()
 		put(r)
